@@ -10,14 +10,11 @@ use white_whale_std::pool_network::trio;
 use crate::engine::{gen, hash_of, Check, Fail, Property, Rec, TResult, Tier};
 use crate::pools::{fees_u, PoolView, TrioCfg, TrioWorld};
 use crate::props::c01::{resolve, Amt};
-use crate::refmath::{exact_d3, fee_floor, to_u128, u, U};
+use crate::refmath::{exact_d3, fee_floor, int_mint3, int_swap3, to_u128, u, U};
 use crate::world::{dec, trio_fee};
 use crate::{ensure, ensure_sig};
 
 pub const MAX_RES: u128 = 1u128 << 110;
-/// magnitude bound of the known rounding class: the loss of D per LP must be explained by at most
-/// this many base units on each reserve.
-pub const ROUNDING_UNITS: u128 = 2;
 
 pub const MIN_AMP: u64 = 1;
 pub const MAX_AMP: u64 = 1_000_000;
@@ -51,17 +48,17 @@ fn d3(r: [u128; 3], amp: u64) -> U {
     exact_d3(u(r[0]), u(r[1]), u(r[2]), amp)
 }
 
-fn d3_shift_up(r: [u128; 3], amp: u64, k: u128) -> U {
-    exact_d3(u(r[0]) + u(k), u(r[1]) + u(k), u(r[2]) + u(k), amp)
-}
-
 /// (D1+1)·S0 ≥ D0·S1
 fn per_lp_not_lower(d0: U, d1: U, s0: u128, s1: u128) -> bool {
     (d1 + U::ONE) * u(s0) >= d0 * u(s1)
 }
 
-/// Judges "D per LP never decreases" exactly; a decrease explained by ≤ ROUNDING_UNITS base units
-/// on each reserve is the known rounding class, anything larger a violation.
+/// Judges "D per LP never decreases" exactly (exact D by bisection). A decrease is the listed
+/// finding only when the operation gave out no more than the documented integer Newton scheme
+/// (refmath::int_*) gives for the same input, i.e. when the loss is inherent to that scheme's
+/// truncating divisions: for a swap the ask reserve fell by no more than the scheme's gross
+/// output, for a deposit no more LP was minted than the scheme mints. Every other decrease —
+/// whatever its size — is a violation.
 pub fn judge_d_per_lp(
     amp: u64,
     before: [u128; 3],
@@ -76,15 +73,40 @@ pub fn judge_d_per_lp(
     if per_lp_not_lower(d0, d1, s0, s1) {
         return Ok(());
     }
-    let d1s = d3_shift_up(after, amp, ROUNDING_UNITS);
-    if per_lp_not_lower(d0, d1s, s0, s1) {
-        return rec.known_or_fail(
-            "trio-d-per-lp-rounding",
-            format!("{what}: exact D per LP fell ({d0}/{s0} -> {d1}/{s1}, amp {amp}, reserves {before:?} -> {after:?}) by an amount explained by <= {ROUNDING_UNITS} base units of each reserve (truncated Newton iterations)"),
-        );
+    let fallen: Vec<usize> = (0..3).filter(|i| after[*i] < before[*i]).collect();
+    let risen: Vec<usize> = (0..3).filter(|i| after[*i] > before[*i]).collect();
+    if s1 == s0 && fallen.len() == 1 && risen.len() == 1 {
+        let (oi, ai) = (risen[0], fallen[0]);
+        let ni = 3 - oi - ai;
+        let paid = before[ai] - after[ai];
+        let scheme = int_swap3(amp, after[oi] - before[oi], before[oi], before[ai], before[ni]);
+        if scheme.map(|g| paid <= g).unwrap_or(false) {
+            rec.class("d_fall_inherent_to_integer_scheme_swap");
+            return rec.known_or_fail(
+                "trio-d-per-lp-rounding",
+                format!("{what}: exact D per LP fell ({d0}/{s0} -> {d1}/{s1}, amp {amp}, reserves {before:?} -> {after:?}); the ask reserve fell by {paid} <= {} = gross output of the integer Newton scheme", scheme.unwrap()),
+            );
+        }
+        return Err(Fail::new(format!(
+            "{what}: exact D per LP fell: {d0}/{s0} -> {d1}/{s1} (amp {amp}, reserves {before:?} -> {after:?}); the ask reserve fell by {paid}, the integer Newton scheme gives {scheme:?}"
+        )));
+    }
+    if s1 > s0 && fallen.is_empty() {
+        let dep = [after[0] - before[0], after[1] - before[1], after[2] - before[2]];
+        let scheme = int_mint3(amp, dep, before, s0);
+        if scheme.map(|m| s1 - s0 <= m).unwrap_or(false) {
+            rec.class("d_fall_inherent_to_integer_scheme_mint");
+            return rec.known_or_fail(
+                "trio-d-per-lp-rounding",
+                format!("{what}: exact D per LP fell ({d0}/{s0} -> {d1}/{s1}, amp {amp}, reserves {before:?} -> {after:?}); minted {} <= {} = mint of the integer Newton scheme", s1 - s0, scheme.unwrap()),
+            );
+        }
+        return Err(Fail::new(format!(
+            "{what}: exact D per LP fell: {d0}/{s0} -> {d1}/{s1} (amp {amp}, reserves {before:?} -> {after:?}); minted {}, the integer Newton scheme mints {scheme:?}", s1 - s0
+        )));
     }
     Err(Fail::new(format!(
-        "{what}: exact D per LP fell: {d0}/{s0} -> {d1}/{s1} (amp {amp}, reserves {before:?} -> {after:?}), more than {ROUNDING_UNITS} base units of rounding on each reserve can explain"
+        "{what}: exact D per LP fell: {d0}/{s0} -> {d1}/{s1} (amp {amp}, reserves {before:?} -> {after:?})"
     )))
 }
 
@@ -129,7 +151,7 @@ impl Check for TrioSwapPure {
         "trio_swap_invariant"
     }
     fn rule(&self) -> &'static str {
-        "amp in [1,10^6], three reserves in [1000,2^110) with pairwise imbalance up to 2^30 in every permutation (= all six directions), offers log-uniform in [1,2^110) or relative to the offer reserve, valid fee triples; StableSwap::swap_to and helpers::compute_swap through the hook; oracle: exact D* (bisection on the n=3 invariant polynomial, U1024) must not fall (exactly; a fall explained by <= 2 base units per reserve is the listed rounding class), amount_swapped <= ask reserve, there-and-back with zero fees returns <= the offer, return+fees == amount_swapped with each fee = floor(share*amount_swapped). Non-trivial: amount_swapped >= 1."
+        "amp in [1,10^6], three reserves in [1000,2^110) with pairwise imbalance up to 2^30 in every permutation (= all six directions), offers log-uniform in [1,2^110) or relative to the offer reserve, valid fee triples; StableSwap::swap_to and helpers::compute_swap through the hook; oracle: exact D* (bisection on the n=3 invariant polynomial, U1024) must not fall (exactly; a fall is the listed finding only when the operation gave out no more than an independent transcription of the documented integer Newton scheme, any other fall is a violation), amount_swapped <= ask reserve, there-and-back with zero fees returns <= the offer, return+fees == amount_swapped with each fee = floor(share*amount_swapped). Non-trivial: amount_swapped >= 1."
     }
     fn strategy(&self, _tier: Tier) -> BoxedStrategy<SwapCase> {
         (
@@ -184,24 +206,17 @@ impl Check for TrioSwapPure {
         if dy >= 1 {
             if let Some(back) = swap_to(c.amp, dy, y - dy, x + dx, z) {
                 rec.class("roundtrip_checked");
+                // A profit means the pool ends with less of the offer asset and the same of the
+                // others, i.e. with a strictly lower exact D: one of the two legs lowered D. Each leg
+                // is judged on its own (the first one above): a leg that lowers D by more than the
+                // listed rounding class explains is a violation of its own; when both legs stay inside
+                // the class, the profit is that class seen from the trader's side.
                 if back > dx {
-                    // magnitude bound of the known rounding class: the pool after the round trip
-                    // still has the invariant it started with once each of the two operations is
-                    // granted ROUNDING_UNITS base units per reserve
-                    let end = [x + dx - back, y, z];
-                    let d0 = d3([x, y, z], c.amp);
-                    let d1 = d3_shift_up(end, c.amp, 2 * ROUNDING_UNITS);
-                    if d1 + U::ONE >= d0 {
-                        rec.known_or_fail(
-                            "trio-there-and-back-rounding",
-                            format!("there-and-back profit of {} base units: {dx} -> {dy} -> {back} (amp {}, pools {x}/{y}/{z}); explained by <= {ROUNDING_UNITS} base units per reserve and operation", back - dx, c.amp),
-                        )?;
-                    } else {
-                        return Err(Fail::new(format!(
-                            "there-and-back profit: {dx} -> {dy} -> {back} (amp {}, pools {x}/{y}/{z}), more than {ROUNDING_UNITS} base units per reserve and operation can explain",
-                            c.amp
-                        )));
-                    }
+                    judge_d_per_lp(c.amp, [x + dx, y - dy, z], [x + dx - back, y, z], 1, 1, rec, "pure swap back")?;
+                    rec.known_or_fail(
+                        "trio-there-and-back-rounding",
+                        format!("there-and-back profit of {} base units: {dx} -> {dy} -> {back} (amp {}, pools {x}/{y}/{z}); each leg gives out no more than the integer Newton scheme", back - dx, c.amp),
+                    )?;
                 }
             }
         }
@@ -261,7 +276,7 @@ impl Check for TrioMintPure {
         "trio_mint_invariant"
     }
     fn rule(&self) -> &'static str {
-        "amp, reserves as for swaps; deposits absolute or k/4096 of each reserve (balanced, skewed, near one-sided); supply = D of the pool, a third of it, or arbitrary; compute_mint_amount_for_deposit through the hook; oracle: exact D* per LP must not fall (rounding class as for swaps). Non-trivial: mint > 0."
+        "amp, reserves as for swaps; deposits absolute or k/4096 of each reserve (balanced, skewed, near one-sided); supply = D of the pool, a third of it, or arbitrary; compute_mint_amount_for_deposit through the hook; oracle: exact D* per LP must not fall (listed finding matched as for swaps: minted <= the integer scheme's mint). Non-trivial: mint > 0."
     }
     fn strategy(&self, _tier: Tier) -> BoxedStrategy<MintCase> {
         (
@@ -521,7 +536,7 @@ impl Check for TrioHistory {
         "trio_history"
     }
     fn rule(&self) -> &'static str {
-        "live trio through the factory (kinds native/cw20, fees, amp) with an initial deposit, then up to 30/80 operations {provide, balanced provide, withdraw, swap i->j (all six directions, native or cw20), swap there-and-back, collect, fee change, amp ramp with values on/inside/outside every bound, block advance}; after every step: Pool query succeeds and balance >= reserve + pending fee; exact D* per LP at the amp of the executing block not lower (rounding class listed); only offer and ask reserves move in a swap; a there-and-back pair of swaps leaves the trader with no more of either asset; Config's ramp parameters equal the reference model (linear in block height), an accepted ramp satisfies all three documented bounds and one satisfying them is not rejected; the pool's simulation agrees with the hooked curve at the model's effective amp. Non-trivial: a ramp in progress during >= 1 successful swap and >= 1 successful deposit."
+        "live trio through the factory (kinds native/cw20, fees, amp) with an initial deposit, then up to 30/80 operations {provide, balanced provide, withdraw, swap i->j (all six directions, native or cw20), swap there-and-back, collect, fee change, amp ramp with values on/inside/outside every bound, block advance}; after every step: Pool query succeeds and balance >= reserve + pending fee; exact D* per LP at the amp of the executing block not lower (listed finding matched against the integer Newton scheme); only offer and ask reserves move in a swap; a there-and-back pair of swaps leaves the trader with no more of either asset; Config's ramp parameters equal the reference model (linear in block height), an accepted ramp satisfies all three documented bounds and one satisfying them is not rejected; the pool's simulation agrees with the hooked curve at the model's effective amp. Non-trivial: a ramp in progress during >= 1 successful swap and >= 1 successful deposit."
     }
     fn strategy(&self, tier: Tier) -> BoxedStrategy<Case> {
         let max_ops = tier.pick(30usize, 80usize);
@@ -695,26 +710,18 @@ impl Check for TrioHistory {
                             rec.class("there_and_back_ok");
                             let a = [tw.w.bal(&tw.infos[fi], &usr), tw.w.bal(&tw.infos[ti], &usr)];
                             if !(a[0] <= b[0] && a[1] <= b[1]) {
-                                // a profit can only come from the two legs' rounding, which the
-                                // per-operation D check below/above already classifies: the profit belongs to the
-                                // known rounding class iff the pool after the round trip keeps its exact D once
-                                // each of the two operations is granted ROUNDING_UNITS base units per reserve
-                                // (fee shares so small that every fee floors to 0 behave like zero fees)
-                                let zero_fee = tw.config().map(|c| c.pool_fees.swap_fee.share.is_zero() && c.pool_fees.protocol_fee.share.is_zero() && c.pool_fees.burn_fee.share.is_zero()).unwrap_or(false);
+                                // The trader ends with more of the offer asset and the same of the ask
+                                // asset, so the reserves ended lower and the exact D fell in one of the two
+                                // legs. Each leg is judged on its own (the first above, the second here): a
+                                // leg outside the listed rounding class is a violation of its own; with
+                                // both legs inside it the profit is that class seen from the trader's side.
                                 let endv = tw.view().map_err(|e| Fail::new(format!("Pool query failed: {e}")))?;
-                                let d0 = d3(arr3(&start), a_now);
-                                let d1 = d3_shift_up(arr3(&endv), a_now, 2 * ROUNDING_UNITS);
-                                let _ = zero_fee;
-                                if d1 + U::ONE >= d0 {
-                                    rec.known_or_fail(
-                                        "trio-there-and-back-rounding",
-                                        format!("step {step}: swapping {amount} of asset {fi} to {ti} and straight back was profitable: balances {b:?} -> {a:?}; explained by <= {ROUNDING_UNITS} base units per reserve and operation"),
-                                    )?;
-                                } else {
-                                    return Err(Fail::new(format!(
-                                        "step {step}: swapping {amount} of asset {fi} to {ti} and straight back was profitable: balances {b:?} -> {a:?}"
-                                    )));
-                                }
+                                judge_d_per_lp(a_now, arr3(&before), arr3(&endv), before.total_share, endv.total_share, rec, &format!("step {step} swap back"))?;
+                                let _ = &start;
+                                rec.known_or_fail(
+                                    "trio-there-and-back-rounding",
+                                    format!("step {step}: swapping {amount} of asset {fi} to {ti} and straight back was profitable: balances {b:?} -> {a:?}; each leg gives out no more than the integer Newton scheme"),
+                                )?;
                             }
                         }
                         check_value = true;
